@@ -13,13 +13,15 @@ NOTE = ("trusted: TLC/SANY (and Apalache for the inductive step of C03/C04); Has
 CLAIMS = {
     "C01": ("model_checking", "complete lifetimes and roll-over walks of the real signer are recorded; TLC judges every released signature byte-for-byte "
             "against the TLA+ reference signer, re-verifies it with the TLA+ RFC 8554 verifier and requires all verification entry points of the code "
-            "to accept it; shapes too tall to rebuild in TLC are judged at verify level",
+            "to accept it (fresh and long-lived VerifyingKey objects); shapes too tall to rebuild in TLC are judged at verify level; messages up to 128 KiB; "
+            "signatures made while an aux buffer goes through the scripted histories of HssAux.tla",
             "trace validation against executable TLA+ reference (TLC), scenario walks over lifetimes"),
     "C02": ("model_checking", "TLC evaluates the TLA+ transcription of RFC 8554 section 6.3 / Alg. 4b / 6a on the very bytes the code saw - valid triples and "
             "structure-aware mutations of every field enumerated from the spec's format grammar (SigLayout/PubLayout); the outcome of every entry point "
             "must equal the specification's; HssSym.tla (symbolic section 6.3) is model checked over all recombinations of released components "
             "(accepted = contiguous segments of released chains; dropped checks yield counterexamples) and its recombinations are rebuilt from real "
-            "signature bytes: symbolic verdict = byte-level reference = code",
+            "signature bytes: symbolic verdict = byte-level reference = code; GenBack.tla builds public keys for relaxed readings of the leaf-range check; alterations "
+            "that cancel under folded comparisons, consistent relabelling of type codes and one VerifyingKey object kept across calls are part of the space",
             "trace validation against TLA+ RFC 8554 verifier; mutation space enumerated from the spec's SigLayout and from the symbolic model HssSym (TLC)"),
     "C03": ("model_checking", "HssApi.tla (caller/library protocol with crashes, callback plans, reloads, both APIs) is model checked exhaustively for small "
             "shapes (NoReuse, ReleaseSafe, Monotone, DigitRule; negative models must yield counterexamples); behaviours of the model are replayed on the "
@@ -34,7 +36,8 @@ CLAIMS = {
             "TLC model checking of HssApi + Apalache inductive invariant + trace validation (TraceApi) of fault-injected walks"),
     "C05": ("model_checking", "lifetime accounting, wipe at the last leaf and refusal afterwards are invariants of the model; complete lifetimes of the real "
             "library under every callback plan are recorded with a lifetime query around every step and validated (value = 2^T - counter, wiped key "
-            "bytes, dead afterwards); pure counter arithmetic for tall shapes is covered by C13's hook validation",
+            "bytes, dead afterwards; lifetime queries go to the SigningKey object itself; a key from an all-zero seed; the last leaves of a 2^35 lifetime); pure counter "
+            "arithmetic for tall shapes is replayed through the accessor",
             "TLC model checking of HssApi + trace validation of complete lifetime walks"),
     "C06": ("model_checking", "the specification's outcome domain for verification is {ok, err}: any panic or hang recorded from the real code is unmatchable; every "
             "prefix length of valid signatures/keys, header sweeps, absurd level counts, random and huge inputs are driven through all five entry points "
@@ -58,7 +61,8 @@ CLAIMS = {
             "trace validation (TLC) over enumerated malformed-input spaces"),
     "C12": ("model_checking", "MC_Ots checks the Appendix-B lemmas on the spec exhaustively (12 parameter sets, every attainable checksum value, every digit position x "
             "byte value, all pairs of one-byte digests); the library's parameter table and its digit encoder (hook) are validated against the formulas for "
-            "digests enumerated by GenDigests.tla",
+            "digests enumerated by GenDigests.tla (every type id the table answers for); END TO END the chain positions are pinned by byte-exact signatures for every "
+            "(hash, w) and for a digest with checksum >= 256 found by search (n = 32, w = 2)",
             "TLC exhaustive lemma checking (MC_Ots) + hook trace validation"),
     "C10": ("model_checking", "SpecKeygen/SpecSign do not take the aux buffer as an argument: every keygen/sign event with ANY buffer (all lengths 0..full+n, fresh, "
             "garbage, other seed, padded, truncated, every single-bit corruption of a valid buffer, left over from signing) is validated byte-for-byte "
@@ -69,20 +73,23 @@ CLAIMS = {
     "C13": ("model_checking", "MC_Arith checks on the spec that the mathematical digit rule (bit slices of the 64-bit counter) equals the shift-and-mask algorithm, "
             "that digits recompose, successor/last/lifetime arithmetic and its agreement with integer arithmetic, for all height tuples and boundary counters "
             "(tall lists included); the library's three pure functions are replayed through the hook for tuples x boundary counters the spec enumerates, and "
-            "end to end through the leaf-index fields of signatures for mixed-height shapes",
+            "end to end through the leaf-index fields of signatures for mixed-height shapes, for counters beyond the lifetime (refused) and through the in-memory key "
+            "at the end of its life",
             "TLC exhaustive checking of counter arithmetic (MC_Arith) + hook trace validation"),
     "C14": ("model_checking", "the limits are definitions of the specification (MaxLevels, MaxHeightAt, MinWAt) that only gate acceptance; the same harness is built "
             "under several HBS_LMS_* settings and every build's keygen/sign/verify/lifetime/aux/exhaustion events are validated against the SAME reference "
-            "(hence identical keys and signatures), while lists one step beyond each limit must be refused with an error through every entry point",
+            "(hence identical keys and signatures), while lists one step beyond each limit must be refused with an error through every entry point; triples made by "
+            "the default build are verified by every restricted build; the default build's own limits (8 levels, 65535-byte signatures) are exercised too",
             "trace validation of multiple build configurations against one TLA+ reference"),
     "C15": ("model_checking", "FastVerify.tla (PlusCal) explores every interleaving/arrival order of workers and collector; on the real code, fast_verify builds with several "
             "thread counts/budgets are driven over 6 hashes x W x message lengths and TLC requires: refusal cases consume nothing and leave the message untouched, "
             "only the trailer changes, the signature is byte-for-byte the ordinary reference signature of the RETURNED message, the callback protocol holds, "
-            "and (verbose) hash_iterations equals the spec's digit sum",
+            "and (verbose) hash_iterations equals the spec's digit sum; one process signs with all six hashes in turn; with and without aux buffers",
             "TLC model checking of the worker/collector race + byte-exact trace validation of sign_mut"),
     "C16": ("other", "drop-time wiping is a structural fact of Rust types that a TLA+ model cannot decide on its own: a memory probe (hook + harness: populated value "
             "dropped in place inside zeroed storage, storage scanned; zeroize() field scan) produces events that TLC judges against the SecretLifecycle/SecretTable "
-            "specification; the exhausted-key clause is decided by trace validation of complete lifetimes (callback argument = WipedKey)",
+            "specification (incl. a Seed made by the public constructor from a 32-byte array); the exhausted-key clause is decided by trace validation of complete "
+            "lifetimes (callback argument = WipedKey) and, for shapes no walk can exhaust, by the successor accessor at the last leaf",
             "memory probe events judged by TLC against SecretLifecycle.tla; lifetime walks for the wiped key"),
 }
 
